@@ -220,7 +220,7 @@ func ParentMain(prop, tier string, replay string) int {
 			cmd.Stdout, cmd.Stderr = outF, errF
 			cmd.Env = append(os.Environ(), spec.Env...)
 			if spec.Race {
-				cmd.Env = append(cmd.Env, "GORACE=halt_on_error=0 log_path="+filepath.Join(wd, "race"))
+				cmd.Env = append(cmd.Env, "GORACE=halt_on_error=0 history_size=7 log_path="+filepath.Join(wd, "race"))
 			}
 			cmd.SysProcAttr = &syscall.SysProcAttr{Setpgid: true}
 			err := cmd.Start()
